@@ -474,6 +474,20 @@ pub fn gen_funcs(rng: &mut Rng, knobs: &Knobs) -> ProjectSpec {
                     Term::IndJmp { target: g.r64(), hints }
                 }
                 8 if g.rng.chance(1, 3) => Term::CallOther { ret: next },
+                // an early return (a second return site): `if flag goto b+2 else fall into the return block b+1`
+                8 | 9 if b + 2 <= epi && g.rng.chance(1, 2) => {
+                    let (ops, flag) = g.cmp_flag();
+                    instrs.push(ops);
+                    g.blocks.push(Block { instrs, term: Term::Cond { flag, target: b + 2, fall: b + 1 } });
+                    let ret_instrs = vec![
+                        vec![copy(reg("RSP", 8), reg("RBP", 8))],
+                        vec![load(reg("RBP", 8), reg("RSP", 8)), bin(reg("RSP", 8), "INT_ADD", reg("RSP", 8), cst(8, 8))],
+                        vec![load(reg("RIP", 8), reg("RSP", 8)), bin(reg("RSP", 8), "INT_ADD", reg("RSP", 8), cst(8, 8))],
+                    ];
+                    g.blocks.push(Block { instrs: ret_instrs, term: Term::Ret });
+                    b += 2;
+                    continue;
+                }
                 _ => Term::Goto(next),
             };
             g.blocks.push(Block { instrs, term });
